@@ -501,6 +501,7 @@ def _check_text(text, emitted, unit, pyver, counters):
       t = t[:-1]             # io._output_ast: result += "\n"
 
   mechanisms = set()
+  tainted = []
 
   def v(key, stage, **kw):
     # one mechanism is reported once per text: a non-fixed-point usually shows again
@@ -508,6 +509,11 @@ def _check_text(text, emitted, unit, pyver, counters):
     mech = key.split(": ", 1)[-1] if stage in ("fixpoint0", "fixpoint1", "canonical") else key
     if mech in mechanisms:
       c["consequence_of_reported_mechanism"] += 1
+      return
+    if emitted and tainted and stage in ("fixpoint1", "parse1", "asteq", "canonical"):
+      # the emitted text already failed to be a fixed point (reported); what happens to the
+      # DERIVED text t1 afterwards is a consequence, pytype never emitted t1
+      c["later_stage_after_reported_nonfixpoint"] += 1
       return
     mechanisms.add(mech)
     d = {"key": key, "stage": stage, "text": text}
@@ -541,6 +547,7 @@ def _check_text(text, emitted, unit, pyver, counters):
     if emitted:
       v("not a fixed point of parse-print: " + classify_nonfixpoint(t, t1), "fixpoint0",
         reprinted=t1)
+      tainted.append(True)
   # second round
   # NOTE: printing an AST fills the `_name2item` lookup caches of its classes and
   # msgspec's generated __eq__ compares that field, so an AST that has been printed
